@@ -32,7 +32,7 @@ PROPS["C04"] = {
     "units": ["sched"],
     "probes": {"sched": ["work::Work::run", "work::BuildStates::pop_queued", "work::BuildStates::enqueue"]},
     "level": "proof",
-    "assumptions": SCHED_ASSUME + ["|live| of the abstract Runner equals the real `running` counter (both change by one in start/wait); BuildStates::new's built-in pools and parse::read_pool's depth are not yet under contract"],
+    "assumptions": SCHED_ASSUME + ["|live| of the abstract Runner equals the real `running` counter (both change by one in start/wait); BuildStates::new (built-in unlimited \"\" pool and `console`, declared pools present, everything fresh) and Work::new (establishes Work::run's preconditions) are under contract; that the depth value parsed by parse::read_pool is the number written in the manifest is not (str::parse is trusted)"],
 }
 PROPS["C05"] = {
     "units": ["sched", "run"],
@@ -61,7 +61,7 @@ PROPS["C19"] = {
     "units": ["sched", "dirty", "run"],
     "probes": {"sched": ["work::BuildStates::set", "work::Work::run"], "dirty": ["work::Work::record_finished"], "run": ["run::run_impl"]},
     "level": "proof",
-    "assumptions": SCHED_ASSUME + ["unit run: run_impl prints `no work to do` exactly for Ok(Some(0)), `ran n tasks` with build()'s n otherwise, and build()'s n is the sum of the tasks_run increments of all Work::run calls (protocol stubs); that tasks_run counts exactly the successful commands inside Work::run is an in-loop fact of unit sched only as far as `record_finished => tasks_run += 1` shares the Success branch",
+    "assumptions": SCHED_ASSUME + ["unit run: run_impl prints `no work to do` exactly for Ok(Some(0)), `ran n tasks` with build()'s n otherwise, and build()'s n is the sum of the tasks_run increments of all Work::run calls (protocol stubs); Work::run's loop invariant `tasks_run == tasks_run_at_entry + (number of wait() results with Termination::Success)` (ghost counter on the trusted Runner model) pins tasks_run to the successful commands; adopt-mode steps are recorded without being counted",
         "the progress implementations behind &dyn Progress only read the counts they are handed"],
 }
 SCAN_ASSUME = [
@@ -276,7 +276,7 @@ LEVEL_TEXT = {
     },
     "C04": {
         "text": "Unbounded proof (Verus): Runner::start requires |live| < parallelism at its only call site; BuildStates::set(.., Running) is reachable only through pop_queued, whose verified contract returns the head of the first pool with depth == 0 or running < depth; per-pool running counters are proved exact (pool_inv: running == number of Running builds resolved to that pool, <= depth when depth > 0) across every transition incl. failures; enqueue returns Err iff the build's pool name matches no declared pool.",
-        "note": "Trusted: as C01; plus the abstraction |live| == Runner.running. BuildStates::new (built-in \"\" and console pools) and the parser's depth value are not yet under contract.",
+        "note": "Trusted: as C01; plus the abstraction |live| == Runner.running. The parser's depth value (str::parse) is trusted.",
         "design_ref": "DESIGN.md §6 C04",
     },
     "C05": {
